@@ -25,9 +25,9 @@ by fresh sub-agents that were given only the text of one property and a scratch 
 (`engine/seedtool.py verify`) before keeping it, then ran the checks against it
 (`engine/seedtool.py kill`: `git -C /repo apply`, `./check <prop> --tier quick`, `git -C /repo checkout -- .`).
 "MISSED at first" marks the %d changes that a check did not catch when first run; each led to the strengthening
-named in the entry (all of those are caught now, and the unchanged tree is still silent). "NOT CAUGHT" marks the one change
-no check reaches: it needs a `get_disjoint_mut` request of 33 or more keys, and the stated bound is J ≤ 4 (an experimental J = 33
-harness exhausted 12 GB in the solver). `rejected-*` is a sub-agent change that violates no property as stated.  `own-*` are mine (not independent).
+named in the entry (all of those are caught now, and the unchanged tree is still silent). "NOT CAUGHT" marks the changes no check
+reaches because they lie outside the stated bounds: a `get_disjoint_mut` request of 33 or more keys (bound J ≤ 4; an experimental J = 33
+harness exhausted 12 GB in the solver) and a `Set::retain` that breaks only above 64 elements (bound N ≤ 12). `rejected-*` is a sub-agent change that violates no property as stated.  `own-*` are mine (not independent).
 
 | seeded change | breaks | what was changed | what it needs to manifest | result |
 |---|---|---|---|---|
